@@ -3845,6 +3845,11 @@ def lookup_facts(repo: Repo) -> list[LookupFact]:
         for p in v.param_names:
             if p == m.graph or (p not in m.filter_params and p not in m.collection_params):
                 continue
+            if p in m.node_maps and m.node_maps[p].collection == p:
+                # a node -> object lookup handed in: its keys were looked up by whoever built it
+                if getattr(m.node_maps[p], "from_caller", False):
+                    out.append(LookupFact(m, p, True, f"`{p}` is built by the caller from {SUBMODULES}(graph, object) for every object (raising for an unknown module)", "elements"))
+                continue
             if p in m.collection_params:
                 subj = m.subject_param
                 good = False
